@@ -536,12 +536,10 @@ def _np2sp(M: Any) -> Any:
 # index part (E1): restricted iteration
 # ---------------------------------------------------------------------------------------------
 
-def region_iter(x0: int, x1: int, x2: int, x3: int, x4: int, x5: int, x6: int, x7: int, x8: int, x9: int,
-                x10: int, x11: int, x12: int, x13: int, x14: int, x15: int, x16: int,
-                m0: int, m1: int, m2: int, l0: int, h0: int, l1: int, h1: int, l2: int, h2: int, ex: int, rev: int) -> bool:
-    """
-    post: _
-    """
+@rt.natively
+def _region_iter_body(x0: int, x1: int, x2: int, x3: int, x4: int, x5: int, x6: int, x7: int, x8: int, x9: int,
+      x10: int, x11: int, x12: int, x13: int, x14: int, x15: int, x16: int,
+      m0: int, m1: int, m2: int, l0: int, h0: int, l1: int, h1: int, l2: int, h2: int, ex: int, rev: int) -> bool:
     from harness.circ_common import Tags, build_pre
     from vf.circ_oracle import grid
     rt.begin()
@@ -607,6 +605,15 @@ def region_iter(x0: int, x1: int, x2: int, x3: int, x4: int, x5: int, x6: int, x
     return True
 
 
+def region_iter(x0: int, x1: int, x2: int, x3: int, x4: int, x5: int, x6: int, x7: int, x8: int, x9: int,
+                x10: int, x11: int, x12: int, x13: int, x14: int, x15: int, x16: int,
+                m0: int, m1: int, m2: int, l0: int, h0: int, l1: int, h1: int, l2: int, h2: int, ex: int, rev: int) -> bool:
+    """
+    post: _
+    """
+    return _region_iter_body(x0, x1, x2, x3, x4, x5, x6, x7, x8, x9, x10, x11, x12, x13, x14, x15, x16, m0, m1, m2, l0, h0, l1, h1, l2, h2, ex, rev)
+
+
 def obligations(tier: str) -> list[dict]:
     obs = []
     n = 16 if tier == 'quick' else 48
@@ -617,9 +624,27 @@ def obligations(tier: str) -> list[dict]:
     for i in range(len(cases)):
         obs.append({'name': 'grad/%d' % i, 'func': 'check_grad', 'kind': 'direct', 'shard': {'tier': tier, 'i': i},
                     'timeout': 300 if tier == 'quick' else 1800})
-    for mode in ('region', 'qudits'):
-        for W, npre in ((2, 2), (3, 2)) if tier == 'quick' else ((2, 3), (3, 3), (3, 2)):
-            obs.append({'name': 'iter/%s/W%d/pre%d' % (mode, W, npre), 'func': 'region_iter',
-                        'shard': {'W': W, 'npre': npre, 'mode': mode, 'codes': [1, 2, 3], 'prepop': tier != 'quick'},
-                        'timeout': 200 if tier == 'quick' else 2400})
+    def it(mode: str, W: int, npre: int, codes: list, timeout: int, pin: dict | None = None) -> None:
+        sh = {'W': W, 'npre': npre, 'mode': mode, 'codes': codes, 'prepop': tier != 'quick'}
+        name = 'iter/%s/W%d/pre%d' % (mode, W, npre)
+        if codes != [1, 2, 3]:
+            name += '/codes' + ''.join(map(str, codes))
+        if pin:
+            sh['pin'] = pin
+            name += '/pin' + '.'.join('%s=%s' % kv for kv in sorted(pin.items()))
+        obs.append({'name': name, 'func': 'region_iter', 'shard': sh, 'timeout': timeout})
+
+    if tier == 'quick':
+        for mode in ('region', 'qudits'):
+            it(mode, 2, 2, [1, 2, 3], 200)
+        it('region', 3, 1, [1, 2, 3], 200)
+        for c0 in (0, 1):                        # multi-qudit gates only; with 1-qudit gates: thorough tier
+            it('qudits', 3, 2, [2, 3], 200, {'0': c0})
+    else:
+        for mode in ('region', 'qudits'):
+            it(mode, 2, 3, [1, 2, 3], 2400)
+            for c0 in (0, 1, 2):                 # W3/pre2 cut by the kind of the first inserted gate
+                for c1 in (0, 1, 2):
+                    it(mode, 3, 2, [1, 2, 3], 1200, {'0': c0, '5': c1})
+            it(mode, 3, 3, [2, 3], 2400, {'0': 0, '5': 1})
     return obs
